@@ -36,7 +36,7 @@ func checkC01(c *Ctx) {
 	c.Floor("C01.R1", 12)
 	c.Floor("C01.R2", 3)
 	c.Floor("C01.R3", 1)
-	c.Floor("C01.R4", 4)
+	c.Floor("C01.R4", 7)
 	c.Floor("C01.R5", 2)
 }
 
@@ -462,63 +462,15 @@ func (a *c01) r4() {
 		return
 	}
 	boxBoxIntersection(c, e, m, "C01.R4")
-	// general Polygonal argument: an opaque polygon whose Bounds() is pb
-	name, pos := c.P.FuncName(m)+"#polygonal", c.P.Decl(m).Pos()
-	n, bad := 0, false
-	general := 0
-	for _, bp := range e.boxPairs(false) {
-		n++
-		recv := e.mk(bp.a)
-		op := &oOpaque{name: "p", bounds: e.mk(bp.b)}
-		res, why := e.it.Call(m, oPtr{recv}, []oval{oIface{opaque: op}}, 0)
-		if why != "" {
-			general++ // the general clip (outside the fragment) is always acceptable
+	// general Polygonal argument: an opaque polygon whose Bounds() is pb; anything the code asks
+	// about its shape (point-in-polygon of a corner, Within, …) is answered in every possible way
+	for _, opn := range []string{"Difference", "Intersection", "Union", "XOr"} {
+		om := c.P.Method("geom", "Bounds", opn)
+		if om == nil || c.P.Decl(om) == nil {
+			c.Unk("C01.R4", "geom.(*Bounds)."+opn, token.NoPos, "API anchor does not resolve")
 			continue
 		}
-		within := bp.b.minx >= bp.a.minx && bp.b.miny >= bp.a.miny && bp.b.maxx <= bp.a.maxx && bp.b.maxy <= bp.a.maxy
-		noArea := max64(bp.a.minx, bp.b.minx) >= min64(bp.a.maxx, bp.b.maxx) || max64(bp.a.miny, bp.b.miny) >= min64(bp.a.maxy, bp.b.maxy)
-		switch v := res[0].(type) {
-		case oTop:
-			general++
-		case oNil:
-			if !noArea {
-				c.Bad("C01.R4", name, pos, "ordering b=%s bounds(p)=%s: nil is returned although the boxes share area (the polygon may reach into the box)", bp.a, bp.b)
-				bad = true
-			}
-		case oIface:
-			switch {
-			case v.opaque == op:
-				if !within {
-					c.Bad("C01.R4", name, pos, "ordering b=%s bounds(p)=%s: p itself is returned although its bounds are not within the box", bp.a, bp.b)
-					bad = true
-				}
-			case v.opaque == nil && v.dyn == nil:
-				if !noArea {
-					c.Bad("C01.R4", name, pos, "ordering b=%s bounds(p)=%s: nil is returned although the boxes share area", bp.a, bp.b)
-					bad = true
-				}
-			default:
-				c.Bad("C01.R4", name, pos, "ordering b=%s bounds(p)=%s: shortcut returns %s for a general polygon", bp.a, bp.b, showVal(v))
-				bad = true
-			}
-		case oPtr:
-			c.Bad("C01.R4", name, pos, "ordering b=%s bounds(p)=%s: the box itself (%s) is returned for a general polygon, whose shape is unknown", bp.a, bp.b, showVal(v))
-			bad = true
-		default:
-			c.Unk("C01.R4", name, pos, "unexpected abstract result %s", showVal(res[0]))
-			bad = true
-		}
-		if bad {
-			break
-		}
-	}
-	c.Evals(n)
-	if !bad {
-		if general == 0 {
-			c.Bad("C01.R4", name, pos, "no ordering reaches the general clip: overlapping operands are never clipped")
-		} else {
-			c.OK("C01.R4", name, pos, "shortcuts fire only where the box relation implies them; %d of %d orderings reach the general clip", general, n)
-		}
+		a.r4polygonal(e, om, opn)
 	}
 	// Within(*Bounds)
 	if w := c.P.Method("geom", "Bounds", "Within"); w != nil && c.P.Decl(w) != nil {
@@ -671,4 +623,141 @@ func isNilTest(info *types.Info, root ast.Node, call *ast.CallExpr) bool {
 		}
 	}
 	return false
+}
+
+// r4polygonal: shortcut results of (*Bounds).<op>(opaque polygon) must follow from the box relation alone.
+func (a *c01) r4polygonal(e *c04e2, m *types.Func, opn string) {
+	c := a.c
+	name, pos := c.P.FuncName(m)+"#polygonal", c.P.Decl(m).Pos()
+	wsT := c.P.NamedType("geom", "WithinStatus")
+	n, general, runs := 0, 0, 0
+	var script []int
+	var doms []int
+	qpos := 0
+	e.it.oracle = func(f *types.Func, res types.Type) (oval, bool) {
+		dom := 0
+		if b, ok := res.Underlying().(*types.Basic); ok && b.Kind() == types.Bool {
+			dom = 2
+		} else if wsT != nil && types.Identical(res, wsT) {
+			dom = 3
+		}
+		if dom == 0 {
+			return nil, false
+		}
+		if qpos >= len(script) {
+			script = append(script, 0)
+			doms = append(doms, dom)
+		}
+		v := script[qpos]
+		qpos++
+		if dom == 2 {
+			return oBool(v == 1), true
+		}
+		return oInt(v), true
+	}
+	defer func() { e.it.oracle = nil }()
+	bad := false
+	for _, bp := range e.boxPairs(false) {
+		n++
+		within := bp.b.minx >= bp.a.minx && bp.b.miny >= bp.a.miny && bp.b.maxx <= bp.a.maxx && bp.b.maxy <= bp.a.maxy // bounds(p) ⊆ b
+		noArea := max64(bp.a.minx, bp.b.minx) >= min64(bp.a.maxx, bp.b.maxx) || max64(bp.a.miny, bp.b.miny) >= min64(bp.a.maxy, bp.b.maxy)
+		script, doms = nil, nil
+		for {
+			qpos = 0
+			runs++
+			recv := e.mk(bp.a)
+			op := &oOpaque{name: "p", bounds: e.mk(bp.b)}
+			res, why := e.it.Call(m, oPtr{recv}, []oval{oIface{opaque: op}}, 0)
+			answers := fmt.Sprint(script[:min(qpos, len(script))])
+			kind := "general"
+			if why == "" {
+				switch v := res[0].(type) {
+				case oTop:
+				case oNil:
+					kind = "empty"
+				case oIface:
+					switch {
+					case v.opaque == op:
+						kind = "p"
+					case v.opaque == nil && v.dyn == nil:
+						kind = "empty"
+					default:
+						if pp, ok := v.dyn.(oPtr); ok && pp.s == recv {
+							kind = "b"
+						} else {
+							kind = "other:" + showVal(v)
+						}
+					}
+				case oPtr:
+					if v.s == recv {
+						kind = "b"
+					} else if v.s == nil {
+						kind = "empty"
+					} else {
+						kind = "other:" + showVal(v)
+					}
+				default:
+					kind = "other:" + showVal(res[0])
+				}
+			}
+			just, want := true, ""
+			switch kind {
+			case "general":
+				general++
+			case "empty":
+				switch opn {
+				case "Intersection":
+					just, want = noArea, "the boxes share no area"
+				default:
+					just, want = false, "never: an empty "+opn+" cannot follow from the boxes (a polygon need not cover the rectangle it was tested against at two corners)"
+				}
+			case "p":
+				switch opn {
+				case "Intersection":
+					just, want = within, "bounds(p) ⊆ b"
+				default:
+					just, want = false, "never"
+				}
+			case "b":
+				switch opn {
+				case "Difference":
+					just, want = noArea, "the boxes share no area"
+				case "Union":
+					just, want = within, "bounds(p) ⊆ b"
+				default:
+					just, want = false, "never: the polygon's shape is unknown"
+				}
+			default:
+				just, want = false, "an unrecognised shortcut value"
+			}
+			if !just {
+				c.Bad("C01.R4", name, pos, "ordering b=%s bounds(p)=%s, shape queries answered %s: (*Bounds).%s returns %s without clipping; that result is justified only when %s", bp.a, bp.b, answers, opn, map[string]string{"empty": "nil/empty", "p": "p itself", "b": "the box itself"}[kind]+strings.TrimPrefix(kind, map[string]string{"empty": "empty", "p": "p", "b": "b"}[kind]), want)
+				bad = true
+				break
+			}
+			// next script (odometer over the answers actually consumed)
+			script, doms = script[:min(qpos, len(script))], doms[:min(qpos, len(doms))]
+			i := len(script) - 1
+			for i >= 0 && script[i] == doms[i]-1 {
+				i--
+			}
+			if i < 0 {
+				break
+			}
+			script[i]++
+			script, doms = script[:i+1], doms[:i+1]
+		}
+		if bad {
+			break
+		}
+	}
+	c.Evals(runs)
+	if bad {
+		return
+	}
+	if general == 0 {
+		c.Bad("C01.R4", name, pos, "no ordering reaches the general clip: overlapping operands are never clipped")
+		return
+	}
+	c.OK("C01.R4", name, pos, "%d box orderings × every answer to shape queries (%d runs): shortcuts fire only where the box relation alone implies them; %d runs reach the general clip", n, runs, general)
 }
